@@ -64,6 +64,13 @@ TStep ==
        /\ ChkS(tr, 1, "read(write(f)) differs from f", ReadDiag(c, tr, tr.rt.got, TRUE))
        /\ IF tr.alt.res # "ok" THEN ChkT(tr, 1, "block-walking reader raised: " \o tr.alt.exc, FALSE)
           ELSE ChkS(tr, 1, "block-walking reader presents other data than the memory-mapped one", ReadDiag(c, tr, tr.alt.got, TRUE))
+       \* the block-walking object keeps its arrays: written twice, the second
+       \* file and the object itself still hold the same data
+       /\ (tr.alt.res = "ok" =>
+             /\ ChkT(tr, 1, "writing the block-walking object twice raised: " \o tr.rt2.exc, tr.rt2.res = "ok")
+             /\ ChkS(tr, 1, "second write of the same object: read(write(f)) differs from f", ReadDiag(c, tr, tr.rt2.got, TRUE))
+             /\ ChkT(tr, 1, "source object after two writes raised: " \o tr.src2.exc, tr.src2.res = "ok")
+             /\ ChkS(tr, 1, "writing changed the source object's data", ReadDiag(c, tr, tr.src2.got, TRUE)))
      \* C14: every prefix of the reference-encoded file opened by the memory-mapped reader
      [] tr.kind = "cuts" ->
        LET pos == PosSeq(c) IN
